@@ -24,7 +24,8 @@ static std::string gen_weight_token() {
 
 static std::string gen_comment() {
     std::string l = coin(50) ? "c" : "#";
-    int len = coin(10) ? pick(0, 900) : pick(0, 30);
+    int lc = pick(0, 99);
+    int len = lc < 6 ? pick(1000, 1021) : lc < 14 ? pick(0, 999) : pick(0, 30);   // up to the longest line the 1024-byte buffer takes whole
     for (int i = 0; i < len; i++) {
         int ch = pick(32, 126);
         l += (char) ch;
@@ -35,13 +36,15 @@ static std::string gen_comment() {
 static Case gen_c10() {
     Case c;
     c.entry = "read_dimacs_from_file";
-    int n = coin(10) ? pick(0, 2) : pick(1, 40);
+    int nc = pick(0, 99);
+    int n = nc < 10 ? pick(0, 2) : nc < 92 ? pick(1, 40) : pick(41, 3000);
     std::string text;
     std::vector<std::string> lines;
     int pre = coin(30) ? pick(1, 3) : 0;
     for (int i = 0; i < pre; i++) lines.push_back(gen_comment());
     static const char *words[] = {"edge", "sp", "col", "max", "x", "graph123"};
-    int items = (n == 0) ? 0 : pick(0, 30);
+    int items = (n == 0) ? 0 : (coin(6) ? pick(31, 400) : pick(0, 30));
+    bool wide_seps = coin(5);   // edge lines padded with hundreds of separator characters
     {
         char b[128];
         int declared_m = coin(70) ? items : pick(0, 100);
@@ -59,8 +62,10 @@ static Case gen_c10() {
         if (i == bad_at) { if (coin(50)) u = coin(50) ? 0 : n + 1; else v = coin(50) ? 0 : n + pick(1, 3); }
         prev.push_back({u, v});
         std::string l = coin(70) ? "e" : "a";
-        l += gen_sep() + std::to_string(u) + gen_sep() + std::to_string(v);
-        if (!coin(25)) l += gen_sep() + gen_weight_token();
+        auto sepx = [&]() { std::string x = gen_sep(); if (wide_seps && coin(50)) x += std::string((size_t) pick(1, 320), coin(50) ? ' ' : '\t'); return x; };
+        l += sepx() + std::to_string(u) + sepx() + std::to_string(v);
+        if (!coin(25)) l += sepx() + gen_weight_token();
+        if (l.size() > 1022) l = l.substr(0, 1) + " " + std::to_string(u) + " " + std::to_string(v);
         lines.push_back(l);
     }
     if (coin(10)) lines.push_back(gen_comment());
